@@ -54,6 +54,8 @@ def tokenize(text):
             c1, r1 = column_index_from_string(m.group(3)), int(m.group(4))
             if m.group(5):
                 c2, r2 = column_index_from_string(m.group(5)), int(m.group(6))
+                # the corners in any order span the same area
+                r1, r2, c1, c2 = min(r1, r2), max(r1, r2), min(c1, c2), max(c1, c2)
                 out.append(('ref', (sheet, r1, c1, r2, c2, True)))
             else:
                 out.append(('ref', (sheet, r1, c1, r1, c1, False)))
@@ -62,8 +64,8 @@ def tokenize(text):
         m = _COLREF.match(text, i)
         if m:
             sheet = m.group(1) if m.group(1) is not None else m.group(2)
-            out.append(('ref', (sheet, None, column_index_from_string(m.group(3)), None,
-                                column_index_from_string(m.group(4)), True)))
+            ca, cb = column_index_from_string(m.group(3)), column_index_from_string(m.group(4))
+            out.append(('ref', (sheet, None, min(ca, cb), None, max(ca, cb), True)))
             i = m.end()
             continue
         m = _NUM.match(text, i)
